@@ -62,14 +62,14 @@ UNITS = {
     },
     'K6d': {
         'engine': 'kani', 'crate': 'toml_edit',
-        'harnesses': ['k6_de_narrow_u8', 'k6_de_narrow_i32', 'k6_de_narrow_u64'],
+        'harnesses': ['k6_de_narrow_u8', 'k6_de_narrow_i32', 'k6_de_narrow_u64', 'k6_de_float_bool'],
         'complete': True, 'timeout': 600,
-        'title': 'toml_edit::de: a TOML integer deserialized into u8 / i32 / u64: exact or an error, every i64',
+        'title': 'toml_edit::de: a TOML integer deserialized into u8 / i32 / u64 / i64: exact or an error, every i64; a float / boolean arrives bit for bit, every f64',
     },
     'K11': {
-        'engine': 'kani', 'crate': 'toml_edit', 'harnesses': ['k11_span_bridge'], 'complete': True,
+        'engine': 'kani', 'crate': 'toml_edit', 'harnesses': ['k11_span_bridge', 'k11_key_span_bridge'], 'complete': True,
         'timeout': 600,
-        'title': 'serde span bridge: SpannedDeserializer -> Spanned<i64>, every (start, end, value)',
+        'title': 'serde span bridge: SpannedDeserializer -> Spanned<i64>, every (start, end, value); KeyDeserializer -> Spanned<String>, every (start, end)',
     },
     'K14': {
         'engine': 'kani', 'crate': 'toml_edit',
